@@ -110,6 +110,9 @@ def opOfJson (j : Json) : Except String Op := do
   | "add_mets" => pure (.addMets (← s "r") (← pairsOf (← j.getObjVal? "mets")) (← (← j.getObjVal? "combine").getBool?) false)
   | "sub_mets" => pure (.addMets (← s "r") (← pairsOf (← j.getObjVal? "mets")) (← (← j.getObjVal? "combine").getBool?) true)
   | "rm_rxn" => pure (.removeRxn (← s "r"))
+  | "add_met" => pure (.addMet (← s "m"))
+  | "rm_met" => pure (.rmMet (← s "m"))
+  | "imul" => pure (.imul (← s "r") (← parseRat (← s "k")))
   | "add_rxn" => pure (.addRxn (← s "r") (← parseEB (← s "lb")) (← parseEB (← s "ub")) (← pairsOf (← j.getObjVal? "st")))
   | "enter" => pure .enter
   | "exit" => pure .exit
